@@ -230,14 +230,19 @@ func c04Check(c *runner.Ctx, src string, r *runner.Rng) {
 		if _, errs := mon.Decode(p); len(errs) > 0 {
 			c.Violate("Compile-unusable-program:"+sigWords(errs[0]), "Compile returned a malformed program: "+strings.Join(errs, "; "), cas("options", desc))
 		}
-		func() {
-			defer func() {
-				if rec := recover(); rec != nil {
-					c.Violate(c04Sig("Disassemble", rec), fmt.Sprintf("Program.Disassemble panicked: %v", rec), cas("options", desc))
-				}
+		// (Disassemble builds its output by repeated string concatenation, which
+		// is quadratic: it is by-catch here, not part of the property, and is
+		// only exercised on programs of moderate size.)
+		if len(p.Bytecode) < 20000 {
+			func() {
+				defer func() {
+					if rec := recover(); rec != nil {
+						c.Violate(c04Sig("Disassemble", rec), fmt.Sprintf("Program.Disassemble panicked: %v", rec), cas("options", desc))
+					}
+				}()
+				_ = p.Disassemble()
 			}()
-			_ = p.Disassemble()
-		}()
+		}
 		for k := 0; k < 3; k++ {
 			env := runEnvs[r.Intn(len(runEnvs))]
 			o := SafeRun(p, env)
